@@ -1,0 +1,177 @@
+/*
+ * Verification facade: finite tables, validation, alias resolvers, offline policy.
+ */
+
+use crate::alias::*;
+use crate::client::*;
+use crate::client::config::*;
+use crate::mqtt::*;
+use crate::protocol::*;
+use crate::validate::*;
+use crate::verif::engine::{connect_options_from_tokens, offline_policy_from_token, resolver_from_token};
+use crate::verif::text::*;
+
+/// Acceptance table (256 entries of 0/1) of a reason-code / enum conversion.
+/// names: connect puback pubrec pubrel pubcomp disconnect suback unsuback auth qos pfi
+///        connect311 suback311
+pub fn enum_table(name: &str) -> TextResult<String> {
+    let mut out = String::with_capacity(256);
+    for value in 0..=255u8 {
+        let accepted = match name {
+            "connect" => ConnectReasonCode::try_from(value).is_ok(),
+            "puback" => PubackReasonCode::try_from(value).is_ok(),
+            "pubrec" => PubrecReasonCode::try_from(value).is_ok(),
+            "pubrel" => PubrelReasonCode::try_from(value).is_ok(),
+            "pubcomp" => PubcompReasonCode::try_from(value).is_ok(),
+            "disconnect" => DisconnectReasonCode::try_from(value).is_ok(),
+            "suback" => SubackReasonCode::try_from(value).is_ok(),
+            "unsuback" => UnsubackReasonCode::try_from(value).is_ok(),
+            "auth" => AuthenticateReasonCode::try_from(value).is_ok(),
+            "qos" => QualityOfService::try_from(value).is_ok(),
+            "pfi" => PayloadFormatIndicator::try_from(value).is_ok(),
+            "connect311" => convert_311_encoding_to_connect_reason_code(value).is_ok(),
+            "suback311" => convert_311_encoding_to_suback_reason_code(value).is_ok(),
+            _ => { return Err(format!("unknown table {}", name)); }
+        };
+        out.push(if accepted { '1' } else { '0' });
+    }
+    Ok(out)
+}
+
+/// does_packet_pass_offline_queue_policy(packet, policy) -> 0/1
+pub fn offline_policy(policy: &str, packet_tokens: &[&str]) -> TextResult<String> {
+    let packet = packet_from_tokens(packet_tokens)?;
+    let policy = offline_policy_from_token(policy)?;
+    Ok(if does_packet_pass_offline_queue_policy(&packet, &policy) { "1".to_string() } else { "0".to_string() })
+}
+
+/// Negotiated settings as a validation context:
+/// maxqos sei recvmax maxpkt tam keepalive retain wildcard subids shared rejoined clientid
+fn settings_from_tokens(tokens: &[&str]) -> TextResult<NegotiatedSettings> {
+    if tokens.len() != 12 { return Err("settings: need 12 tokens".to_string()); }
+    let n = |t: &str| -> TextResult<u64> { t.parse::<u64>().map_err(|_| "bad number".to_string()) };
+    let b = |t: &str| -> TextResult<bool> { match t { "0" => Ok(false), "1" => Ok(true), _ => Err("bad bool".to_string()) } };
+    Ok(NegotiatedSettings {
+        maximum_qos: QualityOfService::try_from(n(tokens[0])? as u8).map_err(|_| "bad qos".to_string())?,
+        session_expiry_interval: n(tokens[1])? as u32,
+        receive_maximum_from_server: n(tokens[2])? as u16,
+        maximum_packet_size_to_server: n(tokens[3])? as u32,
+        topic_alias_maximum_to_server: n(tokens[4])? as u16,
+        server_keep_alive: n(tokens[5])? as u16,
+        retain_available: b(tokens[6])?,
+        wildcard_subscriptions_available: b(tokens[7])?,
+        subscription_identifiers_available: b(tokens[8])?,
+        shared_subscriptions_available: b(tokens[9])?,
+        rejoined_session: b(tokens[10])?,
+        client_id: String::from_utf8(unhex(tokens[11])?).map_err(|_| "bad utf8".to_string())?,
+    })
+}
+
+fn result_text(result: crate::error::GneissResult<()>) -> String {
+    match result { Ok(()) => "ok".to_string(), Err(e) => format!("err:{}", error_kind(&e)) }
+}
+
+/// validate_packet_outbound (the submission-time, static check)
+pub fn validate_static(packet_tokens: &[&str]) -> TextResult<String> {
+    let packet = packet_from_tokens(packet_tokens)?;
+    Ok(result_text(validate_packet_outbound(&packet)))
+}
+
+/// validate_packet_outbound_internal (the send-time check).
+/// tokens: settings(12 tokens | `nosettings`) skip_topic alias(-|n) `CO` connect-options... `PKT` packet...
+pub fn validate_dynamic(tokens: &[&str]) -> TextResult<String> {
+    let mut pos = 0;
+    let settings =
+        if tokens.first() == Some(&"nosettings") { pos += 1; None }
+        else { let s = settings_from_tokens(tokens.get(0..12).ok_or("short")?)?; pos += 12; Some(s) };
+    let skip_topic = tokens.get(pos).ok_or("short")? == &"1";
+    let alias = match *tokens.get(pos + 1).ok_or("short")? { "-" => None, t => Some(t.parse::<u16>().map_err(|_| "bad alias".to_string())?) };
+    pos += 2;
+    if tokens.get(pos) != Some(&"CO") { return Err("expected CO".to_string()); }
+    let pkt_pos = tokens.iter().position(|t| *t == "PKT").ok_or("expected PKT")?;
+    let connect_options = connect_options_from_tokens(&tokens[pos + 1..pkt_pos])?;
+    let packet = packet_from_tokens(&tokens[pkt_pos + 1..])?;
+    let context = OutboundValidationContext {
+        negotiated_settings: settings.as_ref(),
+        connect_options: Some(&connect_options),
+        outbound_alias_resolution: Some(OutboundAliasResolution { skip_topic, alias }),
+    };
+    Ok(result_text(validate_packet_outbound_internal(&packet, &context)))
+}
+
+/// validate_packet_inbound_internal; tokens: settings(12 | nosettings) packet...
+pub fn validate_inbound(tokens: &[&str]) -> TextResult<String> {
+    let (settings, rest) =
+        if tokens.first() == Some(&"nosettings") { (None, &tokens[1..]) }
+        else { (Some(settings_from_tokens(tokens.get(0..12).ok_or("short")?)?), &tokens[12..]) };
+    let packet = packet_from_tokens(rest)?;
+    let context = InboundValidationContext { negotiated_settings: settings.as_ref() };
+    Ok(result_text(validate_packet_inbound_internal(&packet, &context)))
+}
+
+/// is_valid_topic -> 0/1
+pub fn topic_valid(topic: &[u8]) -> TextResult<String> {
+    let s = std::str::from_utf8(topic).map_err(|_| "bad utf8".to_string())?;
+    Ok(if is_valid_topic(s) { "1".to_string() } else { "0".to_string() })
+}
+
+/// topic filter verdict under the four capability combinations of (wildcard, shared) and
+/// no_local, via is_valid_topic_filter_internal: tokens wildcard shared nolocal(-|0|1) -> 0/1
+pub fn filter_valid(filter: &[u8], wildcard: bool, shared: bool, no_local: Option<bool>) -> TextResult<String> {
+    let s = std::str::from_utf8(filter).map_err(|_| "bad utf8".to_string())?;
+    let settings = NegotiatedSettings {
+        maximum_qos: QualityOfService::ExactlyOnce, session_expiry_interval: 0, receive_maximum_from_server: 65535,
+        maximum_packet_size_to_server: 268435455, topic_alias_maximum_to_server: 0, server_keep_alive: 0, retain_available: true,
+        wildcard_subscriptions_available: wildcard, subscription_identifiers_available: true, shared_subscriptions_available: shared,
+        rejoined_session: false, client_id: String::new(),
+    };
+    let context = OutboundValidationContext { negotiated_settings: Some(&settings), connect_options: None, outbound_alias_resolution: None };
+    Ok(if is_valid_topic_filter_internal(s, &context, no_local) { "1".to_string() } else { "0".to_string() })
+}
+
+/// Outbound alias resolver session.
+pub struct Resolver { resolver: Box<dyn OutboundAliasResolver> }
+
+impl Resolver {
+    pub fn new(kind: &str) -> TextResult<Resolver> {
+        let factory = resolver_from_token(kind)?.ok_or("resolver kind required")?;
+        Ok(Resolver { resolver: factory() })
+    }
+
+    pub fn reset(&mut self, maximum: u16) { self.resolver.reset_for_new_connection(maximum); }
+
+    /// -> `<skip 0|1> <alias -|n>` or panic:<message>
+    pub fn resolve(&mut self, alias: Option<u16>, topic: &[u8]) -> TextResult<String> {
+        let s = std::str::from_utf8(topic).map_err(|_| "bad utf8".to_string())?.to_string();
+        let resolver = &mut self.resolver;
+        let result = std::panic::catch_unwind(std::panic::AssertUnwindSafe(|| resolver.resolve_and_apply_topic_alias(&alias, &s)));
+        Ok(match result {
+            Ok(r) => format!("{} {}", r.skip_topic as u8, r.alias.map(|a| a.to_string()).unwrap_or("-".to_string())),
+            Err(_) => "panic".to_string(),
+        })
+    }
+}
+
+/// Inbound alias resolver session.
+pub struct InboundResolver { resolver: InboundAliasResolver }
+
+impl InboundResolver {
+    pub fn new(maximum: u16) -> InboundResolver { InboundResolver { resolver: InboundAliasResolver::new(maximum) } }
+
+    pub fn reset(&mut self) { self.resolver.reset_for_new_connection(); }
+
+    /// -> `ok x<topic>` | `err:<Kind>`
+    pub fn resolve(&mut self, alias: Option<u16>, topic: &[u8]) -> TextResult<String> {
+        let mut s = std::str::from_utf8(topic).map_err(|_| "bad utf8".to_string())?.to_string();
+        Ok(match self.resolver.resolve_topic_alias(&alias, &mut s) {
+            Ok(()) => format!("ok {}", hex(s.as_bytes())),
+            Err(e) => format!("err:{}", error_kind(&e)),
+        })
+    }
+}
+
+/// ConnectOptions::to_connect_packet(connected_previously) as packet text
+pub fn to_connect_packet(connected_previously: bool, option_tokens: &[&str]) -> TextResult<String> {
+    let options = connect_options_from_tokens(option_tokens)?;
+    Ok(packet_to_text(&MqttPacket::Connect(options.to_connect_packet(connected_previously))))
+}
